@@ -273,3 +273,343 @@ def check_module_ports(parsed_top, mapped):
     for k in dims: n *= k
     got[x] = (d, ty_width(ty), n)
   return sorted((k, exp.get(k), got.get(k)) for k in set(exp) | set(got) if exp.get(k) != got.get(k))
+
+# ---------------------------------------------------------------------------------------------
+# the pipeline shared by c03.py (backend 'verilog') and c12.py (backend 'yosys')
+# ---------------------------------------------------------------------------------------------
+class Job:
+  def __init__(self, be, design, cyc_seed, ncycles):
+    self.be, self.d = be, design
+    self.cyc_seed, self.ncycles = cyc_seed, ncycles
+    self.case = None
+    self.stage = 'new'          # gen-error | elab-error | sim-raised | rejected | syntax | ok
+    self.info = ''
+    self.ports = self.cycles = self.pytrace = self.text = self.parsed = self.mapped = None
+    self.top2 = None
+    self.ptop = None
+    self.blk_jobs = []
+
+def prepare(job, workdir, rng_cls):
+  """python side of one design: load, simulate with PyMTL, translate, parse"""
+  from . import c03_rtlir as R
+  d = job.d
+  try:
+    mod = load_module(workdir, d['src'])
+    Top = getattr(mod, d.get('top', 'Top'))
+  except Exception as e:
+    job.stage, job.info = 'gen-error', f'{type(e).__name__}: {e}'[:300]; return
+  try:
+    top = Top(); top.elaborate()
+    top2 = Top(); top2.elaborate()
+  except Exception as e:
+    job.stage, job.info = 'elab-error', f'{type(e).__name__}: {str(e)[:300]}'; return
+  job.ports = top_ports(top)
+  if 'cycles' in d: job.cycles = d['cycles']
+  else: job.cycles = gen_cycles(rng_cls(job.cyc_seed), job.ports, job.ncycles)
+  job.case = {'label': d['label'], 'backend': job.be, 'src': d['src'], 'cycles': job.cycles}
+  try:
+    job.pytrace = simulate_pymtl(top, job.ports, job.cycles)
+  except Exception as e:
+    job.stage, job.info = 'sim-raised', f'{type(e).__name__}: {str(e)[:200]}'
+  try:
+    job.text = translate(top2, job.be, workdir)
+    job.top2 = top2
+  except Exception as e:
+    if job.stage != 'sim-raised': job.stage = 'rejected'
+    job.info = str(job.info) + f' | translation: {type(e).__name__}: {str(e)[:300]}'
+    return
+  try:
+    job.parsed = sp.parse(job.text)
+  except sp.SVSyntaxError as e:
+    job.stage = 'syntax'
+    ln = e.line
+    lines = job.text.split('\n')
+    job.info = {'error': str(e), 'line': ln, 'text': lines[ln - 1].strip() if ln and ln <= len(lines) else ''}
+    return
+  if job.stage == 'new': job.stage = 'ok'
+
+def top_module(job):
+  """the parsed module of the top-level component, by the name the pass publishes"""
+  P = backend_pass(job.be)
+  name = job.top2.get_metadata(P.translated_top_module)
+  for m in job.parsed.modules:
+    if m['name'] == name: return m
+  return None
+
+def module_of(job, comp):
+  tr = job.top2.get_metadata(backend_pass(job.be).translator)
+  name = tr.structural.component_unique_name[comp]
+  for m in job.parsed.modules:
+    if m['name'] == name: return m
+  return None
+
+def find_block(pm, name):
+  for it in pm['items']:
+    if it[0] in ('comb', 'ff') and it[1] == name: return it
+  return None
+
+def random_stores(rng, pm, n):
+  """stores for the per-block tie: every declared variable gets boundary-biased random element values"""
+  decls = [(x, ty, dims) for _, x, ty, dims in pm['ports']] + list(pm['decls'])
+  out = []
+  for k in range(n):
+    sets = []
+    for x, ty, dims in decls:
+      w = ty_width(ty)
+      cnt = 1
+      for dd in dims: cnt *= dd
+      for e in range(cnt):
+        top = (1 << w) - 1
+        if k == 0: v = 0
+        elif k == 1: v = top
+        else: v = rng.choice([0, 1, top, top - 1, 1 << (w - 1), rng.getrandbits(w), rng.getrandbits(w), rng.getrandbits(w)]) & top
+        if x in ('clk',): v = 0
+        sets.append((x, e, v))
+    out.append(sets)
+  return out
+
+def blk_lines(job, rng, nstores):
+  """request lines of the semantic tie, one per (module, block), deduplicated"""
+  from . import c03_rtlir as R
+  seen = set()
+  lines, meta = [], []
+  for comp, bname, is_ff, upblk in R.component_blocks(job.top2):
+    pm = module_of(job, comp)
+    if pm is None: meta.append(('no-module', repr(comp), bname)); continue
+    key = (pm['name'], bname)
+    if key in seen: continue
+    seen.add(key)
+    it = find_block(pm, bname)
+    if it is None: meta.append(('no-block', pm['name'], bname)); continue
+    try:
+      rs = R.block_sexp(upblk, job.be, comp)
+    except R.Unmodelled as e:
+      meta.append(('unmodelled', pm['name'], bname, str(e))); continue
+    body = it[2] if it[0] == 'comb' else it[3]
+    line = leanio.line('sv', 'blk', job.be, sp.module_sexp(pm), rs, sp.stmt_sexp(body), random_stores(rng, pm, nstores))
+    lines.append(line); meta.append(('line', pm['name'], bname))
+  return lines, meta
+
+def compare_traces(job, r):
+  """first mismatches between the PyMTL trace and the Lean simulation of the parsed text"""
+  bad = []
+  for k, ((pa, pb), (sa, sb)) in enumerate(zip(job.pytrace, r.trace)):
+    for ph, pv, sv in (('after-comb', pa, sa), ('after-tick', pb, sb)):
+      ex = job.mapped.expect(pv)
+      for key, v in ex.items():
+        if sv.get(key) != v:
+          bad.append({'cycle': k, 'phase': ph, 'port': key[0], 'elem': key[1], 'pymtl': v, 'sv': sv.get(key), 'inputs': job.cycles[k]})
+  return bad
+
+class Verdicts:
+  """turns the raw results of one job into ck.violation / ck.disagreement calls"""
+  def __init__(self, ck, pid):
+    self.ck, self.pid = ck, pid
+
+  def signature(self, job, kind, extra=None):
+    d = job.d
+    sig = {'finding': d.get('finding', 'none')}
+    if d.get('finding') and kind not in d.get('expect', ()):
+      sig = {'finding': 'unexpected-in-' + d['finding'], 'kind': kind}
+    if d.get('variant'): sig['variant'] = d['variant']
+    if extra: sig.update(extra)
+    return sig
+
+  def report(self, job, kind, detail, extra=None):
+    self.ck.violation(kind, self.signature(job, kind, extra), job.case, detail)
+
+# ---------------------------------------------------------------------------------------------
+# independent restatement for loops: the SV for-header, read with 32-bit unsigned arithmetic, must
+# enumerate exactly list(range(...)) of the PyMTL source
+# ---------------------------------------------------------------------------------------------
+def _hdr_eval(e, v, val):
+  k = e[0]
+  if k == 'paren': return _hdr_eval(e[1], v, val)
+  if k == 'lit': return e[2] % (1 << e[1])
+  if k == 'num': return e[1]
+  if k == 'id': return val if e[1] == v else None
+  if k == 'cast':
+    x = _hdr_eval(e[2], v, val)
+    return None if x is None else x % (1 << e[1])
+  if k == 'bin':
+    a, b = _hdr_eval(e[2], v, val), _hdr_eval(e[3], v, val)
+    if a is None or b is None: return None
+    M = (1 << 32) - 1
+    op = e[1]
+    if op == 'add': return (a + b) & M
+    if op == 'sub': return (a - b) & M
+    if op == 'lt': return int(a < b)
+    if op == 'gt': return int(a > b)
+    if op == 'le': return int(a <= b)
+    if op == 'ge': return int(a >= b)
+    if op == 'ne': return int(a != b)
+  return None
+
+def sv_loop_values(forstmt, limit):
+  """values the loop variable takes in the body, at most `limit` of them; None if the header is not understood"""
+  _, decl, v, init, cond, step, body = forstmt
+  x = _hdr_eval(init, v, None)
+  out = []
+  while x is not None and len(out) < limit:
+    c = _hdr_eval(cond, v, x)
+    if c is None: return None
+    if not c: return out
+    out.append(x)
+    x = _hdr_eval(step, v, x)
+  return out if x is not None else None
+
+def collect_fors(stmt, out):
+  k = stmt[0]
+  if k == 'block':
+    for s in stmt[1]: collect_fors(s, out)
+  elif k == 'if':
+    collect_fors(stmt[2], out)
+    if stmt[3] is not None: collect_fors(stmt[3], out)
+  elif k == 'for':
+    out.append(stmt); collect_fors(stmt[6], out)
+  return out
+
+def collect_rtlir_fors(body, out):
+  from pymtl3.passes.rtlir import BehavioralRTLIR as bir
+  for n in body:
+    if isinstance(n, bir.For):
+      out.append(n); collect_rtlir_fors(n.body, out)
+    elif isinstance(n, bir.If):
+      collect_rtlir_fors(n.body, out); collect_rtlir_fors(n.orelse, out)
+  return out
+
+def loop_header_mismatches(job):
+  """[(module, block, python range, sv values)] where the emitted header does not enumerate range()"""
+  from . import c03_rtlir as R
+  bad, seen = [], set()
+  for comp, bname, is_ff, upblk in R.component_blocks(job.top2):
+    pm = module_of(job, comp)
+    if pm is None or (pm['name'], bname) in seen: continue
+    seen.add((pm['name'], bname))
+    it = find_block(pm, bname)
+    if it is None: continue
+    pf = collect_fors(it[2] if it[0] == 'comb' else it[3], [])
+    rf = collect_rtlir_fors(upblk.body, [])
+    if len(pf) != len(rf): bad.append((pm['name'], bname, 'number of loops differs', [len(rf), len(pf)])); continue
+    for p, r in zip(pf, rf):
+      try: want = list(range(int(r.start._value), int(r.end._value), int(r.step._value)))
+      except AttributeError: continue
+      got = sv_loop_values(p, len(want) + 3)
+      if got != want: bad.append((pm['name'], bname, want, got))
+  return bad
+
+# ---------------------------------------------------------------------------------------------
+# one batch through the whole pipeline
+# ---------------------------------------------------------------------------------------------
+def run_batch(ck, be, designs, stats, ncycles, nstores, tie=True):
+  """designs: list of dicts from c03_gen (src, label, finding?, variant?, expect?, cycles?).
+  Emits ck.count / ck.hist / ck.violation / ck.disagreement."""
+  import random
+  rng = ck.rng
+  V = Verdicts(ck, ck.pid)
+  drv = ck.drv('sv')
+  jobs = []
+  for d in designs:
+    job = Job(be, d, rng.getrandbits(48), ncycles)
+    prepare(job, ck.workdir, random.Random)
+    jobs.append(job)
+    stats['stage:' + job.stage] = stats.get('stage:' + job.stage, 0) + 1
+    if job.stage not in ('ok', 'syntax'):
+      stats.setdefault('not-compared', []).append(f"{d['label']}: {job.stage}: {str(job.info)[:400]}")
+  live = [j for j in jobs if j.parsed is not None]
+  # ---- port maps (Model/Flat.lean)
+  lines, owner = [], []
+  for j in live:
+    for p in j.ports:
+      lines.append(portmap_line(be, p)); owner.append(j)
+  reps = drv.batch(lines)
+  k = 0
+  for j in live:
+    n = len(j.ports)
+    j.mapped = Mapped(be, j.ports, reps[k:k + n]); k += n
+    j.ptop = top_module(j)
+  # ---- simulation of the parsed text + per-block tie
+  lines, owner = [], []
+  for j in live:
+    if j.ptop is None: continue
+    lines.append(sim_line(sp.design_sexp(j.parsed), j.ptop['name'], j.mapped, j.cycles)); owner.append((j, 'sim', None))
+    if tie:
+      bl, meta = blk_lines(j, rng, nstores)
+      j.blk_meta = meta
+      names = [m for m in meta if m[0] == 'line']
+      for l, m in zip(bl, names):
+        lines.append(l); owner.append((j, 'blk', m))
+  reps = drv.batch(lines) if lines else []
+  for j in live: j.sim = None; j.blk = []
+  for (j, kind, m), rep in zip(owner, reps):
+    if kind == 'sim': j.sim = SimReply(rep, j.mapped.observed())
+    else: j.blk.append((m, rep))
+  # ---- verdicts
+  for j in jobs:
+    d = j.d
+    if j.case is None:
+      ck.hist('stage', j.stage); continue
+    ck.hist('stage', j.stage)
+    ck.hist('label', d['label'].split(':')[0])
+    for f in d.get('features', []): ck.hist('feature', f)
+    nontrivial = j.stage == 'ok' and j.sim is not None and bool(j.cycles)
+    ck.count({'label': d['label'], 'backend': be, 'src_hash': hash_text(d['src']), 'cycles': j.cycles}, nontrivial)
+    if j.stage == 'syntax':
+      V.report(j, 'syntax-invalid', {'what': 'the emitted text is not accepted by the IEEE 1800-2017 grammar of the emitted subset',
+                                     'parser': j.info, 'oracle': 'c03_svparse (written from IEEE 1800-2017 Annex A)'})
+      continue
+    if j.parsed is None: continue
+    if j.ptop is None:
+      V.report(j, 'port-map', {'what': 'no module named as translated_top_module in the emitted text'}); continue
+    r = j.sim
+    found = False
+    if r.errors:
+      found = True
+      V.report(j, 'syntax-invalid', {'what': 'the emitted text uses names / selects that do not resolve against its own declarations',
+                                     'errors': r.errors[:10]})
+    diff = check_module_ports(j.ptop, j.mapped)
+    if diff:
+      found = True
+      V.report(j, 'port-map', {'what': 'ports of the emitted top module differ from the flat port map (name, (direction, width, elements))',
+                               'expected_vs_emitted': [list(map(str, x)) for x in diff[:10]]})
+    if r.multi:
+      found = True
+      V.report(j, 'multi-driver', {'what': 'a variable bit is written by two processes', 'conflicts': [list(x) for x in r.multi[:10]]})
+    if r.undriven:
+      found = True
+      V.report(j, 'undriven', {'what': 'a variable that is read (or is an output) has bits no process drives', 'variables': r.undriven[:10]})
+    if r.status == 'fuel' or (j.top2 is not None and loop_header_mismatches(j)):
+      found = True
+      lm = loop_header_mismatches(j)
+      V.report(j, 'loop-overrun', {'what': 'an emitted for loop does not enumerate range() of the PyMTL source (32-bit unsigned loop variable)',
+                                   'loops (module, block, python values, first SV values)': [list(map(str, x)) for x in lm[:5]],
+                                   'lean_sim': r.status})
+    elif r.status == 'unstable':
+      found = True
+      V.report(j, 'comb-unstable', {'what': 'the combinational processes of the emitted text do not settle', 'cycle': r.stop_cycle})
+    if r.castdiff:
+      found = True
+      V.report(j, 'cast-reading-dependent', {'what': "the two admissible readings of the size cast N'(e) give different outputs on this design"})
+    if j.pytrace is not None and r.status == 'trace':
+      bad = compare_traces(j, r)
+      if bad:
+        found = True
+        V.report(j, 'output-mismatch', {'what': 'output port differs between the PyMTL simulation and the emitted text under IEEE 1800 two-state semantics',
+                                        'first': bad[:3], 'n_mismatches': len(bad)})
+    # semantic tie with the model of the translator
+    for m, rep in j.blk:
+      stats['blocks_tied'] = stats.get('blocks_tied', 0) + 1
+      if rep != 'same':
+        stats['blocks_differ'] = stats.get('blocks_differ', 0) + 1
+        if not found and not d.get('finding'):
+          ck.disagreement('VTr.trStmt≈' + ('VBehavioralTranslator' if be == 'verilog' else 'YosysBehavioralTranslator'),
+                          {'label': d['label'], 'backend': be, 'src': d['src'], 'module': m[1], 'block': m[2]}, 'tr(model of RTLIR): ' + rep[:300], 'parsed real text')
+    for m in getattr(j, 'blk_meta', []):
+      if m[0] != 'line': stats['tie:' + m[0]] = stats.get('tie:' + m[0], 0) + 1
+    if d.get('finding') and not found:
+      stats['finding-not-reproduced:' + d['finding']] = stats.get('finding-not-reproduced:' + d['finding'], 0) + 1
+  return jobs
+
+def hash_text(s):
+  import hashlib
+  return hashlib.sha256(s.encode()).hexdigest()[:16]
